@@ -108,6 +108,7 @@ package sessiontracker
 //@   ensures[invalid] !ValidRUL(rul) ==> result != nil && len(out) == old(len(out)) && kept_objs_old("F!*") && kept_old("M!*")
 //@   ensures[err] result != nil ==> !ValidRUL(rul) || wfailed
 //@   ensures[werr] wfailed && !old(wfailed) ==> result != nil
+//@   ensures[agekept] kept_objs_old("F!sessiontracker.user!added")
 //@   ensures[c01] forall i int :: old(len(out)) <= i && i < len(out) ==> out[i].by == rul.Source && out[i].Type == "UserAction"
 //@   |   && g_opened[out[i].Metadata.AuditID] == rul.PID
 //@   ensures[bind] result == nil ==> (forall sid string :: Matched(o, rul, sid) && (forall t string :: Matched(o, rul, t) ==> t == sid) ==>
@@ -164,6 +165,7 @@ package sessiontracker
 //@   |          out[i].by == old(PMap(o)[atoival(event.Process.PID)].Source) && old(PMap(o)[atoival(event.Process.PID)].PID) == g_opened[event.Session])
 //@   ensures[err] result != nil ==> wfailed || (event.Type == auparse.AUDIT_LOGIN && !atoiok(event.Process.PID))
 //@   ensures[werr] wfailed && !old(wfailed) ==> result != nil
+//@   ensures[agekept] kept_objs_old("F!sessiontracker.user!added")
 //@   ensures[causal] old(Causal(o)) ==> (result == nil ==> Causal(o)) && (forall i int :: old(len(out)) <= i && i < len(out) ==> After(i))
 //@   ensures[prefix] outprefix_kept()
 //@   assert_at Write[render] EvIs(e, u.login.Source, event) && g_evsrc[e] == event && g_evby[e] == u.login.Source
